@@ -201,6 +201,9 @@ func NPMUniverse(o NPMOpts) *rapid.Generator[Universe] {
 							r.Name = names[ti]
 							if rapid.Bool().Draw(t, "aimalias") {
 								r.Req = aimed(ti)
+							} else if rapid.IntRange(0, 3).Draw(t, "aliastag") == 0 {
+								// "x": "npm:real@latest"
+								r.Req = rapid.SampledFrom([]string{"latest", "next"}).Draw(t, "aliastagreq")
 							}
 							// The alias name is unique to the declaring version: the same
 							// alias at two places of a dependency cycle (which may close
@@ -236,6 +239,49 @@ func NPMUniverse(o NPMOpts) *rapid.Generator[Universe] {
 			}
 			inheritReqs(t, &p)
 			u.Pkgs = append(u.Pkgs, p)
+		}
+		// A dist-tag requirement that meets a copy installed under the same alias:
+		// package 0 declares "alx": "npm:T@latest" and requires A, which declares
+		// the same. (One alias name at two places can run into the recorded
+		// non-termination when the universe closes a cycle through them; the
+		// checks count that under their watchdog.)
+		if o.RealNameAliases && n >= 3 && rapid.IntRange(0, 5).Draw(t, "aliastagshape") == 0 {
+			a := rapid.IntRange(1, n-2).Draw(t, "aliastaga")
+			ti := rapid.IntRange(a+1, n-1).Draw(t, "aliastagtarget")
+			tag := rapid.SampledFrom([]string{"latest", "next"}).Draw(t, "aliastagname")
+			tagged := false
+			for _, v := range u.Pkgs[ti].Versions {
+				for _, at := range v.Attrs {
+					if strings.HasPrefix(at, "Tags ") && (strings.Contains(at, " "+tag) || strings.Contains(at, ","+tag)) {
+						tagged = true
+					}
+				}
+			}
+			if !tagged {
+				v := &u.Pkgs[ti].Versions[0]
+				hasTags := false
+				for i, at := range v.Attrs {
+					if strings.HasPrefix(at, "Tags ") {
+						v.Attrs[i] = at + "," + tag
+						hasTags = true
+					}
+				}
+				if !hasTags {
+					v.Attrs = append(v.Attrs, "Tags "+tag)
+				}
+			}
+			for vi := range u.Pkgs[a].Versions {
+				v := &u.Pkgs[a].Versions[vi]
+				v.Reqs = append(v.Reqs, UReq{Name: names[ti], Req: tag, Type: "KnownAs alx"})
+			}
+			v0 := &u.Pkgs[0].Versions[0]
+			kept := v0.Reqs[:0:0]
+			for _, r := range v0.Reqs {
+				if r.Name != names[a] && !strings.Contains(r.Type, "KnownAs "+names[a]) {
+					kept = append(kept, r)
+				}
+			}
+			v0.Reqs = append(kept, UReq{Name: names[ti], Req: tag, Type: "KnownAs alx"}, UReq{Name: names[a], Req: "*"})
 		}
 		if o.Bundles {
 			var derived []UPkg
